@@ -434,8 +434,13 @@ def evFlag (st : State) : Entry → State
   | .batch => { st with batchChanged := true }
   | .all => { st with githubChanged := true, batchChanged := true, stateChanged := true }
 
+/-- the GitHub refresh fails at its first request (`gh.getitem(…/git/refs/heads/<branch>)` raises): the pass of `_update` is
+aborted by the exception; `github_changed` was already cleared, nothing else has happened -/
+def evGithubFailed (st : State) : State := { st with githubChanged := false }
+
 inductive Event where
   | flag (e : Entry)
+  | githubFailed
   | github (snap : Snapshot)
   | batch
   | heal (a : Answers)
@@ -444,6 +449,7 @@ deriving DecidableEq, Repr
 
 def step (fix : Bool) (st : State) : Event → State × List Out
   | .flag e => (evFlag st e, [])
+  | .githubFailed => (evGithubFailed st, [])
   | .github s => (evGithub st s, [])
   | .batch => (evBatch fix st, [])
   | .heal a => evHeal st a
